@@ -47,6 +47,33 @@ def order_rule(ctx, rid):
                                    construct="prepare-before-choose " + norm(pc.func)), "%s order" % name)
             else:
                 rr.ok("%s: choose_batch_settings completes before `%s`" % (name, norm(pc.func)))
+        # a batch size / count (/ shuffle) given at sow time replaces the crop's own exactly when it is given
+        from ..util import store_polarity, callee_func
+        for par_ in [x for x in ("batchsize", "num_batches", "shuffle") if x in f.params]:
+            sn, sg = store_polarity(f, par_, "self." + par_, g)
+            if (sn, sg) == (False, False):
+                # applied in a helper that receives the parameter
+                fwd = [c_ for _, c_, _nm in all_calls(ctx, f, g) if callee_func(ctx, f, c_) is not None and any(isinstance(a_, ast.Name) and a_.id == par_ for a_ in list(c_.args) + [k.value for k in c_.keywords])]
+                if fwd:
+                    h_ = callee_func(ctx, f, fwd[0])
+                    hp_ = None
+                    for pos_, a_ in enumerate(fwd[0].args):
+                        if isinstance(a_, ast.Name) and a_.id == par_ and pos_ + (1 if h_.cls is not None else 0) < len(h_.positional):
+                            hp_ = h_.positional[pos_ + (1 if h_.cls is not None else 0)]
+                    for k_ in fwd[0].keywords:
+                        if isinstance(k_.value, ast.Name) and k_.value.id == par_:
+                            hp_ = k_.arg
+                    if hp_ is not None:
+                        ctx.touch(h_)
+                        sn, sg = store_polarity(h_, hp_, "self." + par_)
+            if (sn, sg) == (False, True):
+                rr.ok("%s: a given `%s` replaces the crop's, an omitted one leaves it" % (name, par_))
+            elif (sn, sg) == (True, False):
+                rr.bad(ctx.finding(rid, f, f.node, "%s stores `%s` on the crop when it is omitted (None) and ignores it when it is given: the requested batch size / count / shuffle is not honoured" % (name, par_), construct="override-polarity %s %s" % (name, par_)), "%s %s override" % (name, par_))
+            elif (sn, sg) == (False, False):
+                rr.bad(ctx.finding(rid, f, f.node, "%s never applies a given `%s` to the crop" % (name, par_), construct="override-missing %s %s" % (name, par_)), "%s %s override" % (name, par_))
+            else:
+                raise AnalysisError("idiom changed: how %s applies `%s`" % (name, par_))
         # the combos / cases counted are the ones sown
         for cn, cc in ch:
             kws = {k.arg: norm(k.value) for k in cc.keywords}
